@@ -175,12 +175,50 @@ def concrete_row(seed, fam, base, order, token, text):
     return a.byteswap().view(dtype_of(fam, base, "gt"))
 
 
-def chunk_array(seed, fam, chunk, text):
+# ---- scale: a token >= BIG_TOK is a block of many rows (RecStore.tla: BigTok, BigW) --------------------------------
+BIG_TOK, BIG_W = 900, 1000
+IO_BLOCK = 1 << 24          # sizes are chosen across and at this boundary (16 MiB: stdio / chunked-write block sizes)
+BIG_KINDS = 4
+
+
+def big_nrows(fam, base, kind):
+    """number of rows of a block, from the row size: just over one I/O block | just over two | exactly what fits in
+    one (the row size may or may not divide it) | three blocks and a bit"""
+    isz = dtype_of(fam, base, "lt").itemsize
+    q = IO_BLOCK // isz
+    return (q + 1000, 2 * q + 1, q, 3 * q + 17)[kind % BIG_KINDS]
+
+
+_BLOCKS = {}
+
+
+def concrete_block(seed, fam, base, order, token, nrows):
+    """the rows a block token stands for: a counter pattern over every byte of every row (row i differs from row j,
+    and a shift by any number of bytes is visible), defined in little-endian and byte-swapped like single rows"""
+    key = (seed, fam, base, order, token, nrows)
+    if key not in _BLOCKS:
+        if len(_BLOCKS) >= 2:
+            _BLOCKS.clear()
+        le = dtype_of(fam, base, "lt")
+        isz = le.itemsize
+        c = np.arange(nrows, dtype=np.uint64) * np.uint64(2654435761) + np.uint64(token * 7 + seed)
+        raw = np.empty((nrows, isz), dtype=np.uint8)
+        for j in range(isz):                      # one pass per byte column: every byte of a row depends on its index
+            raw[:, j] = ((c * np.uint64(2 * j + 1) + np.uint64(40503 * j)) >> np.uint64((5 * j) % 17 + 3)).astype(np.uint8)
+        a = np.frombuffer(raw.tobytes(), dtype=le).copy()
+        if not (order == "lt" or (order == "na" and np.little_endian)):
+            a = a.byteswap().view(dtype_of(fam, base, "gt"))
+        _BLOCKS[key] = a
+    return _BLOCKS[key]
+
+
+def chunk_array(seed, fam, chunk, text, bigkind=0):
     """the array a chunk stands for, *in the chunk's byte order* (np.concatenate would hand back a
     native-order array: the rows are joined as bytes)"""
     base, order = chunk["descr"]
     dt = dtype_of(fam, base, order)
-    rows = [concrete_row(seed, fam, base, order, t, text) for t in chunk["rows"]]
+    rows = [concrete_row(seed, fam, base, order, t, text) if t < BIG_TOK else
+            concrete_block(seed, fam, base, order, t, big_nrows(fam, base, bigkind)) for t in chunk["rows"]]
     if not rows:
         return np.zeros(0, dtype=dt)
     return np.frombuffer(b"".join(r.tobytes() for r in rows), dtype=dt).copy()
@@ -189,15 +227,26 @@ def chunk_array(seed, fam, chunk, text):
 class TokenTable:
     """observed row bytes -> token, for the tokens that occur in one trace"""
 
-    def __init__(self, seed, fam, tokens_by_base):
-        self.seed, self.fam, self.tokens_by_base = seed, fam, tokens_by_base
+    def __init__(self, seed, fam, tokens_by_base, bigkind=0):
+        self.seed, self.fam, self.tokens_by_base, self.bigkind = seed, fam, tokens_by_base, bigkind
+        self.has_big = any(t >= BIG_TOK for ts in tokens_by_base.values() for t in ts)
         self._cache = {}
+
+    def units(self, count, base):
+        """an observed row count in the units of the specification: q blocks and r single rows -> q * BigW + r
+        (one-to-one for r < BigW; anything else is no count the specification can mean: -2)"""
+        if not self.has_big or base not in FAMILIES[self.fam] or count < 0:
+            return count
+        q, r = divmod(int(count), big_nrows(self.fam, base, self.bigkind))
+        return q * BIG_W + r if r < BIG_W else -2
 
     def _table(self, base, order, text):
         key = (base, order, text)
         if key not in self._cache:
             tab = {}
             for t in sorted(self.tokens_by_base.get(base, ())):
+                if t >= BIG_TOK:
+                    continue
                 b = concrete_row(self.seed, self.fam, base, order, t, text).tobytes()
                 if b in tab:
                     raise RuntimeError("token concretisation not injective: %s %s" % (tab[b], t))
@@ -212,7 +261,31 @@ class TokenTable:
         order = did[1] if did[1] != "na" else NATIVE
         tab = self._table(did[0], order, text)
         data = np.ascontiguousarray(data).reshape(-1)
-        return [tab.get(data[i:i + 1].tobytes(), 0) for i in range(data.size)]
+        bigs = [t for t in sorted(self.tokens_by_base.get(did[0], ())) if t >= BIG_TOK] if not text else []
+        n = big_nrows(self.fam, did[0], self.bigkind) if bigs else 0
+        if not bigs or data.size < n:
+            if data.size > 400:                       # far more rows than any history of this check writes singly
+                return [tab.get(data[i:i + 1].tobytes(), 0) for i in range(400)] + [0]
+            return [tab.get(data[i:i + 1].tobytes(), 0) for i in range(data.size)]
+        # a block is identified as a whole, bit for bit, wherever it starts
+        out, i = [], 0
+        while i < data.size and len(out) <= 400:
+            hit = None
+            if data.size - i >= n:
+                for t in bigs:
+                    blk = concrete_block(self.seed, self.fam, did[0], order, t, n)
+                    if data[i:i + 1].tobytes() == blk[0:1].tobytes() and data[i:i + n].tobytes() == blk.tobytes():
+                        hit = t
+                        break
+            if hit is not None:
+                out.append(hit)
+                i += n
+            else:
+                out.append(tab.get(data[i:i + 1].tobytes(), 0))
+                i += 1
+        if i < data.size:
+            out.append(0)
+        return out
 
 
 def cols_tokens(table, data, base, order, text):
@@ -224,6 +297,8 @@ def cols_tokens(table, data, base, order, text):
     order = order if order != "na" else NATIVE
     tab = {}
     for t in sorted(table.tokens_by_base.get(base, ())):
+        if t >= BIG_TOK:
+            continue
         row = concrete_row(table.seed, table.fam, base, order, t, text)
         if any(n not in row.dtype.names for n in names):
             return [0] * int(data.size)
@@ -283,9 +358,11 @@ class World:
     the first `open` event on it constructs it, later ones call its .open() again - whether it is closed or still
     open (reuse=False: a new object for every open, the old one closed first)."""
 
-    def __init__(self, seed, fam, npaths=2, writer=0, reader=0, headers=HEADERS, lib="sfile", reuse=True):
+    def __init__(self, seed, fam, npaths=2, writer=0, reader=0, headers=HEADERS, lib="sfile", reuse=True, bigkind=0):
         self.seed, self.fam = seed, fam
-        self.lib, self.reuse = lib, reuse
+        self.lib, self.reuse, self.bigkind = lib, reuse, bigkind
+        self.bigpaths = set()               # paths a block was written to (no partial reads are asked of them)
+        self._rawcache = {}
         self.root = _process_dir()
         self.paths = {p: os.path.join(self.root, "f%d.rec" % p) for p in range(1, npaths + 1)}
         # the NAME a writing call is given for path p: plain, or with the shortcuts the library documents
@@ -332,12 +409,22 @@ class World:
             ok = e["p"] not in {q for h, q in self.hpath.items() if h != e["h"]}
         elif op == "hwrite":
             ok = e["h"] in self.handles and self.hmode[e["h"]] != "r"
-        elif op in ("hread", "hclose"):
+        elif op in ("hread", "hclose", "hdrop"):
             ok = e["h"] in self.handles
+            if op == "hread" and e.get("sel", "all") != "all" and self.hpath.get(e["h"]) in self.bigpaths:
+                ok = False                                  # (a row of a block is no token)
         elif op in ("write", "append"):
             ok = e["p"] not in set(self.hpath.values())
         else:
             ok = True
+        if ok and any(t >= BIG_TOK for t in e["chunk"]["rows"]):
+            # blocks are written in binary form only (millions of text rows cost seconds and decide nothing more)
+            if op == "hwrite":
+                ok = not self.htext[e["h"]]
+            elif op == "write":
+                ok = e["delim"] == "none"
+            elif op == "append":
+                ok = not self._file_is_text(e["p"]) and (bool(self.raw(e["p"])) or e["delim"] == "none")
         return ok and (self.lib == "sfile" or self._bare_admissible(e))
 
     def _reap(self, p):
@@ -359,7 +446,7 @@ class World:
         op = e["op"]
         if op == "readhdr" or e["hdr"] != "none":
             return False
-        p = self.hpath.get(e["h"]) if op in ("hwrite", "hread", "hclose") else e["p"]
+        p = self.hpath.get(e["h"]) if op in ("hwrite", "hread", "hclose", "hdrop") else e["p"]
         known = self.bare.get(p)
         if op == "open":
             return e["mode"] in ("w", "w+") or known is not None or e["mode"] == "r+"
@@ -379,11 +466,33 @@ class World:
 
     # -- projections -----------------------------------------------------------------------
     def raw(self, p):
+        """the bytes of path p (None: no such file); of a file of many megabytes its length and a digest, recomputed
+        only when the file's stat changed"""
+        path = self.paths[p]
         try:
-            with open(self.paths[p], "rb") as f:
-                return f.read()
+            st = os.stat(path)
         except FileNotFoundError:
             return None
+        if st.st_size <= (4 << 20):
+            with open(path, "rb") as f:
+                return f.read()
+        key = (st.st_size, st.st_mtime_ns, st.st_ino)
+        hit = self._rawcache.get(p)
+        if hit is None or hit[0] != key:
+            h = hashlib.blake2b(digest_size=16)
+            with open(path, "rb") as f:
+                for blk in iter(lambda: f.read(1 << 22), b""):
+                    h.update(blk)
+            hit = (key, ("big", st.st_size, h.hexdigest()))
+            self._rawcache[p] = hit
+        return hit[1]
+
+    def head(self, p, n=1 << 16):
+        try:
+            with open(self.paths[p], "rb") as f:
+                return f.read(n)
+        except FileNotFoundError:
+            return b""
 
     def _project(self, data, hdr, sel="all", full=None):
         """(array, header dict) as returned by a reader -> the res/obs fields (full: dtype of the whole row, for the
@@ -397,9 +506,10 @@ class World:
         else:
             did = descr_id(self.fam, data.dtype, text)
             rows = self.table.tokens(data, did, text)
+        size = int(size) if isinstance(size, (int, np.integer)) and not isinstance(size, bool) else -1
+        base = (descr_id(self.fam, full, text) if sel == "cols" and full is not None else did)[0]
         return {"delim": DELIM_IDS.get(dl, "?"), "hdr": header_id(hdr, self.headers), "descr": did,
-                "size": int(size) if isinstance(size, (int, np.integer)) and not isinstance(size, bool) else -1,
-                "rows": rows}
+                "size": self.table.units(size, base), "rows": rows}
 
     def _bare_hdr(self, p, n):
         """what a bare record file 'stores' besides the rows: nothing - the delimiter is the caller's, the count the reader's"""
@@ -445,13 +555,15 @@ class World:
 
     # -- events ------------------------------------------------------------------------------
     def _array(self, e, text):
-        return chunk_array(self.seed, self.fam, e["chunk"], text)
+        if any(t >= BIG_TOK for t in e["chunk"]["rows"]):
+            self.bigpaths.add(self.hpath[e["h"]] if e["op"] == "hwrite" else e["p"])
+        return chunk_array(self.seed, self.fam, e["chunk"], text, self.bigkind)
 
     def _file_is_text(self, p):
         """whether path p currently holds a text file (decides only which *values* the chunk gets)"""
         if self.lib == "recfile":
             return p in self.bare and self.bare[p][1] != "none"
-        b = self.raw(p)
+        b = self.head(p)
         return bool(b) and b"'_DELIM'" in b.split(b"END\n", 1)[0]
 
     def _open(self, e, before):
@@ -545,6 +657,14 @@ class World:
             elif op == "hclose":
                 self.hpath.pop(e["h"], None)
                 self.handles.pop(e["h"]).close()
+            elif op == "hdrop":
+                # the object is released without close(): the last reference goes, the collector runs
+                import gc
+                self.hpath.pop(e["h"], None)
+                self.handles.pop(e["h"])
+                self.objects.pop(e["h"], None)
+                obj = None      # noqa
+                gc.collect()
             elif op in ("write", "append"):
                 path = self.names[e["p"]]
                 if op == "append" and before[e["p"]]:
@@ -583,7 +703,8 @@ class World:
                 dl = hdr.get("_DELIM")
                 res.update({"delim": DELIM_IDS.get(dl, "?"), "hdr": header_id(hdr, self.headers),
                             "descr": descr_id(self.fam, np.dtype(hdr["_DTYPE"]), dl is not None),
-                            "size": int(hdr["_SIZE"])})
+                            "size": self.table.units(int(hdr["_SIZE"]),
+                                                     descr_id(self.fam, np.dtype(hdr["_DTYPE"]), dl is not None)[0])})
             else:
                 raise RuntimeError("unknown op " + op)
         except Exception as ex:  # noqa  (any exception of the call = "rejected")
@@ -623,6 +744,8 @@ def entry_name(e, writer, reader, lib="sfile"):
         return cls + ".read(same handle)"
     if op == "hclose":
         return cls + ".close"
+    if op == "hdrop":
+        return "del " + cls
     if op in ("write", "append"):
         if lib != "sfile":
             return "recfile.write(mode=%s)" % ("r+" if op == "append" else "w")
@@ -633,11 +756,12 @@ def entry_name(e, writer, reader, lib="sfile"):
     return "read_header"
 
 
-def run_trace(seed, fam, events, npaths=2, writer=0, reader=0, sched="every", headers=HEADERS, lib="sfile", reuse=True):
+def run_trace(seed, fam, events, npaths=2, writer=0, reader=0, sched="every", headers=HEADERS, lib="sfile", reuse=True,
+              bigkind=0):
     """execute a list of abstract events from an empty directory; handles still open at the end are closed by
     explicit hclose events (what they wrote becomes observable).  Returns (events issued, events completed)"""
-    w = World(seed, fam, npaths=npaths, writer=writer, reader=reader, headers=headers, lib=lib, reuse=reuse)
-    w.table = TokenTable(seed, fam, tokens_by_base(events))
+    w = World(seed, fam, npaths=npaths, writer=writer, reader=reader, headers=headers, lib=lib, reuse=reuse, bigkind=bigkind)
+    w.table = TokenTable(seed, fam, tokens_by_base(events), bigkind)
     kept, out = [], []
     try:
         for i, e in enumerate(events):
